@@ -232,9 +232,9 @@ class LenClass:
                 return
 
     def _size_test(self, c: Node, depth=0):
-        """the comparison node if the condition tests the NUMBER of events of a per-event array against something other
-        than emptiness (size == 1, len(x) > 100, ...): what an event gets then depends on how many events are evaluated
-        with it.  Emptiness tests (== 0, < 1, > 0, truthiness, 0 in shape) are guards and return None."""
+        """the comparison node if the condition singles out batches of exactly one event (size == 1, len(x) < 2, ...):
+        a one-element batch is then treated differently from the same event inside a larger batch.  Emptiness tests
+        (== 0, < 1, > 0, truthiness, 0 in shape) are guards; other thresholds are not judged here."""
         if depth > 6:
             return None
         if c.op in ("UnaryOp", "BoolOp"):
@@ -261,7 +261,10 @@ class LenClass:
                     op = {"Lt": "Gt", "Gt": "Lt", "LtE": "GtE", "GtE": "LtE"}.get(op, op)
                 empty_test = (kv == 0 and op in ("Eq", "NotEq", "Gt", "LtE", "In", "NotIn")) or \
                     (kv == 1 and op in ("Lt", "GtE"))
-                return None if empty_test else c
+                # "exactly one event" is the case that is special-cased in earnest (a one-element batch read as a
+                # scalar or a count); thresholds that pick a faster evaluation of the same kernel are not reported
+                single_test = (kv == 1 and op in ("Eq", "NotEq", "LtE", "Gt")) or (kv == 2 and op in ("Lt", "GtE"))
+                return c if (single_test and not empty_test) else None
         return None
 
     def mk_len(self, x: Node):
